@@ -190,6 +190,9 @@ pub fn run_topic(topic: &str, cx: &mut Ctx) -> bool {
         "order" => order(cx),
         "lazy" => lazy(cx),
         "coll" => coll(cx),
+        "macros" => macros(cx),
+        "hascoal" => hascoal(cx),
+        "fold" => fold(cx),
         _ => return false,
     }
     true
@@ -614,5 +617,520 @@ pub fn coll(cx: &mut Ctx) {
         c.bind.insert("i".into(), i);
         c.forms = forms(&["bound", "lit"]);
         cx.out(c);
+    }
+}
+
+// ---------------------------------------------------------------------------------------------
+// random expressions (used by several topics)
+
+pub struct ExprGen {
+    pub vars: Vec<String>,     // names that may be read (bound or not)
+    pub progs: Vec<String>,    // stored programs that may be referenced
+    pub funcs: Vec<String>,    // recording functions
+    pub macros: bool,
+    pub fstrings: bool,
+    pub matches: bool,
+}
+
+impl ExprGen {
+    pub fn leaf(&self, r: &mut Rng) -> T {
+        match r.below(10) {
+            0..=3 if !self.vars.is_empty() => id(r.pick(&self.vars[..]).as_str()),
+            4 if !self.progs.is_empty() => id(r.pick(&self.progs[..]).as_str()),
+            5 if !self.funcs.is_empty() => call(r.pick(&self.funcs[..]).as_str(), vec![]),
+            _ => lit(match r.below(9) {
+                0 => V::Int(r.range(0, 3)),
+                1 => V::Int(r.range(0, 100)),
+                2 => V::Bool(r.chance(1, 2)),
+                3 => V::Str(r.pick_str(&["", "a", "b", "é"]).to_string()),
+                4 => V::Uint(r.below(4)),
+                5 => V::Dbl(r.range(0, 6) as f64 / 2.0),
+                6 => V::Null,
+                7 => V::Bytes(vec![97]),
+                _ => V::Int(r.range(0, 9)),
+            }),
+        }
+    }
+
+    pub fn expr(&self, r: &mut Rng, depth: u32) -> T {
+        if depth == 0 {
+            return self.leaf(r);
+        }
+        let d = depth - 1;
+        match r.below(26) {
+            0..=2 => self.leaf(r),
+            3..=5 => bin(r.pick_str(&["+", "-", "*", "/", "%"]), self.expr(r, d), self.expr(r, d)),
+            6..=7 => bin(r.pick_str(&["<", "<=", "==", "!=", ">=", ">"]), self.expr(r, d), self.expr(r, d)),
+            8 => bin("in", self.expr(r, d), self.expr(r, d)),
+            9..=10 => bin(r.pick_str(&["||", "&&"]), self.expr(r, d), self.expr(r, d)),
+            11 => tern(self.expr(r, d), self.expr(r, d), self.expr(r, d)),
+            12 => {
+                let op = if r.chance(1, 2) { '!' } else { '-' };
+                let e = self.expr(r, d);
+                match e {
+                    T::Un { op: o2, .. } if o2 == op => e,
+                    _ => un(op, 1 + r.below(2) as u32, e),
+                }
+            }
+            13 => T::List((0..r.below(4)).map(|_| self.expr(r, d)).collect()),
+            14 => idx(self.expr(r, d), self.expr(r, d)),
+            15 => T::Map((0..r.below(3)).map(|_| (lit(V::Str(r.pick_str(&["a", "b", "k"]).to_string())), self.expr(r, d))).collect()),
+            16 => sel(self.expr(r, d), r.pick_str(&["a", "b", "k"])),
+            17 => call(r.pick_str(&["size", "int", "uint", "double", "string", "bool", "type", "dyn", "bytes"]), vec![self.expr(r, d)]),
+            18 => call("has", vec![self.expr(r, d)]),
+            19 => call("coalesce", (0..r.below(4)).map(|_| self.expr(r, d)).collect()),
+            20 => mcall(self.expr(r, d), "size", vec![]),
+            21 | 22 if self.macros => {
+                let v = r.pick_str(&["e", "x", "it"]).to_string();
+                let mut inner = ExprGen { vars: self.vars.clone(), progs: self.progs.clone(), funcs: self.funcs.clone(), macros: depth > 1, fstrings: self.fstrings, matches: self.matches };
+                inner.vars.push(v.clone());
+                inner.vars.push(v.clone());
+                let recv = if r.chance(2, 3) { T::List((0..r.below(4)).map(|_| self.expr(r, d.min(1))).collect()) } else { self.expr(r, d) };
+                match r.below(7) {
+                    0 => mcall(recv, "all", vec![id(&v), inner.expr(r, d)]),
+                    1 => mcall(recv, "exists", vec![id(&v), inner.expr(r, d)]),
+                    2 => mcall(recv, "exists_one", vec![id(&v), inner.expr(r, d)]),
+                    3 => mcall(recv, "filter", vec![id(&v), inner.expr(r, d)]),
+                    4 => mcall(recv, "map", vec![id(&v), inner.expr(r, d)]),
+                    5 => mcall(recv, "map", vec![id(&v), inner.expr(r, d), inner.expr(r, d)]),
+                    _ => {
+                        let mut inner2 = ExprGen { vars: inner.vars.clone(), progs: self.progs.clone(), funcs: self.funcs.clone(), macros: false, fstrings: false, matches: false };
+                        inner2.vars.push("acc".into());
+                        mcall(recv, "reduce", vec![id("acc"), id(&v), inner2.expr(r, d), self.expr(r, d)])
+                    }
+                }
+            }
+            23 if self.fstrings => {
+                let n = 1 + r.below(3);
+                T::FStr((0..n).map(|_| if r.chance(1, 2) { Seg::Lit(r.pick_str(&["a", "{", "}", " x", "é", "'"]).to_string()) } else { Seg::Expr(self.expr(r, d.min(1))) }).collect())
+            }
+            24 if self.matches => {
+                let ncase = 1 + r.below(2);
+                T::Match {
+                    e: Box::new(self.expr(r, d)),
+                    cases: (0..ncase)
+                        .map(|_| {
+                            (
+                                match r.below(4) {
+                                    0 => Pat::Any,
+                                    1 => Pat::Type(r.pick_str(&["int", "string", "bool", "uint", "double"]).to_string()),
+                                    _ => Pat::Cmp(r.pick_str(&["==", "<", ">=", "!="]).to_string(), self.leaf(r)),
+                                },
+                                self.expr(r, d),
+                            )
+                        })
+                        .collect(),
+                }
+            }
+            _ => bin(r.pick_str(&["+", "==", "&&", "||"]), self.expr(r, d), self.expr(r, d)),
+        }
+    }
+}
+
+fn bind_random(c: &mut Case, names: &[&str], r: &mut Rng, unbound_chance: u64) {
+    for n in names {
+        if r.below(10) < unbound_chance {
+            continue;
+        }
+        let v = match r.below(10) {
+            0 => V::Int(0),
+            1 => V::Int(r.range(-3, 9)),
+            2 => V::Bool(r.chance(1, 2)),
+            3 => V::Str(r.pick_str(&["", "a", "ab"]).to_string()),
+            4 => V::List(vec![V::Int(1), V::Int(2), V::Int(3)]),
+            5 => V::Map(vec![("a".into(), V::Int(1)), ("b".into(), V::Map(vec![("k".into(), V::Null)]))]),
+            6 => V::Uint(r.below(5)),
+            7 => V::Dbl(r.range(-4, 4) as f64 / 2.0),
+            8 => V::Null,
+            _ => V::Int(r.range(0, 2)),
+        };
+        c.bind.insert(n.to_string(), v);
+    }
+}
+
+// ---------------------------------------------------------------------------------------------
+// C07: comprehension macros
+
+pub fn macros(cx: &mut Ctx) {
+    let macro_forms: Vec<(&str, usize)> = vec![("all", 1), ("exists", 1), ("exists_one", 1), ("filter", 1), ("map", 1), ("map", 2)];
+    // bodies over int elements: K is a position-dependent constant
+    let bodies = |k: i64| -> Vec<T> {
+        vec![
+            bin("==", id("x"), lit(V::Int(k))),                                                   // truthy exactly at element k
+            bin("!=", id("x"), lit(V::Int(k))),
+            bin(">", bin("/", lit(V::Int(6)), bin("-", id("x"), lit(V::Int(k)))), lit(V::Int(0))), // fails at element k
+            bin(">", bin("+", id("x"), id("y")), lit(V::Int(2))),                                  // reads an outer variable
+            bin(">", bin("+", id("x"), id("p")), lit(V::Int(2))),                                  // reads a stored program
+            mcall(T::List(vec![id("x"), lit(V::Int(1))]), "all", vec![id("x"), bin(">", id("x"), lit(V::Int(0)))]), // inner macro, same name
+            mcall(T::List(vec![id("x")]), "exists", vec![id("z"), bin("==", id("z"), id("x"))]),   // inner macro, other name
+            id("x"),                                                                               // truthiness of the element itself
+            bin("==", id("x"), id("nope")),                                                        // unbound inside the body
+            call("c1", vec![id("x")]),                                                             // recording function: call order and count
+        ]
+    };
+    for len in 0..=4usize {
+        let lists: Vec<Vec<i64>> = vec![(1..=len as i64).collect(), (0..len as i64).collect(), vec![1; len], (0..len as i64).map(|i| (i * 7) % 3).collect()];
+        for l in lists {
+            for (m, nb) in macro_forms.iter() {
+                for k in 0..=(len as i64) {
+                    for (bi, body) in bodies(k).into_iter().enumerate() {
+                        if !cx.thorough && bi >= 3 && k > 1 {
+                            continue;
+                        }
+                        let mut args = vec![id("x"), body.clone()];
+                        if *nb == 2 {
+                            args.push(bin("*", id("x"), lit(V::Int(10))));
+                        }
+                        let mut c = cx.case(mcall(id("l"), m, args));
+                        c.bind.insert("l".into(), V::List(l.iter().map(|i| V::Int(*i)).collect()));
+                        c.bind.insert("y".into(), V::Int(1));
+                        c.bind.insert("x".into(), V::Str("outer".into())); // must be shadowed, and unchanged afterwards
+                        c.progs.insert("p".into(), bin("+", id("y"), lit(V::Int(1))));
+                        c.funcs.insert("c1".into(), serde_json::json!({"o":"ok","v":V::Bool(k % 2 == 0).to_json()}));
+                        c.forms = forms(&["bound", "lit"]);
+                        cx.out(c);
+                    }
+                }
+            }
+            // reduce: non-commutative step, failing step, seed reading outer names
+            for (step, seed) in [
+                (bin("-", bin("*", id("acc"), lit(V::Int(2))), id("x")), lit(V::Int(1))),
+                (bin("+", id("acc"), call("string", vec![id("x")])), lit(V::Str("s".into()))),
+                (bin("/", id("acc"), id("x")), lit(V::Int(1000))),
+                (bin("+", id("acc"), bin("*", id("x"), id("y"))), id("y")),
+                (bin("+", id("acc"), id("x")), id("nope")),
+                (T::List(vec![id("acc"), id("x")]), T::List(vec![])),
+            ] {
+                let mut c = cx.case(mcall(id("l"), "reduce", vec![id("acc"), id("x"), step, seed]));
+                c.bind.insert("l".into(), V::List(l.iter().map(|i| V::Int(*i)).collect()));
+                c.bind.insert("y".into(), V::Int(3));
+                c.bind.insert("acc".into(), V::Str("outer-acc".into()));
+                c.forms = forms(&["bound", "lit"]);
+                cx.out(c);
+            }
+        }
+    }
+    // exists_one with hits at every pair of positions
+    for len in 0..=5usize {
+        for a in 0..len {
+            for b in a..len {
+                let l: Vec<V> = (0..len).map(|i| V::Int(if i == a || i == b { 1 } else { 0 })).collect();
+                let mut c = cx.case(mcall(id("l"), "exists_one", vec![id("x"), bin("==", id("x"), lit(V::Int(1)))]));
+                c.bind.insert("l".into(), V::List(l));
+                c.forms = forms(&["bound", "lit"]);
+                cx.out(c);
+            }
+        }
+    }
+    // wrong shapes
+    for t in [
+        mcall(id("l"), "all", vec![id("x")]),
+        mcall(id("l"), "all", vec![lit(V::Int(1)), lit(V::Bool(true))]),
+        mcall(id("l"), "map", vec![id("x"), id("x"), id("x"), id("x")]),
+        mcall(lit(V::Int(5)), "all", vec![id("x"), lit(V::Bool(true))]),
+        mcall(lit(V::Str("abc".into())), "map", vec![id("x"), id("x")]),
+        mcall(id("l"), "reduce", vec![id("a"), id("x"), id("a")]),
+        mcall(lit(V::Null), "filter", vec![id("x"), lit(V::Bool(true))]),
+        mcall(bin("/", lit(V::Int(1)), id("zero")), "map", vec![id("x"), id("x")]),
+        mcall(id("nope"), "exists", vec![id("x"), lit(V::Bool(true))]),
+    ] {
+        let mut c = cx.case(t);
+        c.bind.insert("l".into(), V::List(vec![V::Int(1), V::Int(2)]));
+        c.bind.insert("zero".into(), V::Int(0));
+        c.forms = forms(&["bound", "lit"]);
+        cx.out(c);
+    }
+    // maps: one fixed order.  The same map, built in several ways, must iterate identically.
+    for nkeys in 0..=6usize {
+        for rep in 0..(if cx.thorough { 12 } else { 4 }) {
+            let keys: Vec<String> = (0..nkeys).map(|i| format!("{}{}", ["k", "a", "zz", "é", "m", "b"][(i + rep) % 6], i)).collect();
+            let m = V::Map({
+                let mut kv: Vec<(String, V)> = keys.iter().enumerate().map(|(i, k)| (k.clone(), V::Int(i as i64))).collect();
+                kv.sort_by(|a, b| a.0.cmp(&b.0));
+                kv
+            });
+            for t in [
+                mcall(id("m"), "map", vec![id("k"), id("k")]),
+                mcall(id("m"), "filter", vec![id("k"), bin("!=", id("k"), lit(V::Str("a1".into())))]),
+                mcall(id("m"), "map", vec![id("k"), bin("in", id("k"), id("m")), idx(id("m"), id("k"))]),
+            ] {
+                let mut c = cx.case(t);
+                c.bind.insert("m".into(), m.clone());
+                c.forms = forms(&["bound", "lit", "json", "bound"]);
+                c.extra = serde_json::json!({"same": true});
+                cx.out(c);
+            }
+        }
+    }
+    // random: longer lists (beyond the call-depth limit), all element types, generated bodies
+    let g = ExprGen { vars: vec!["x".into(), "x".into(), "y".into(), "l".into()], progs: vec!["p".into()], funcs: vec![], macros: true, fstrings: false, matches: false };
+    for _ in 0..cx.n {
+        let n = cx.rng.below(if cx.thorough { 65 } else { 40 }) as usize;
+        let l: Vec<V> = (0..n)
+            .map(|_| match cx.rng.below(8) {
+                0..=4 => V::Int(cx.rng.range(-2, 5)),
+                5 => V::Str(rand_string(&mut cx.rng, 2)),
+                6 => V::Bool(cx.rng.chance(1, 2)),
+                _ => rand_value(&mut cx.rng, 1),
+            })
+            .collect();
+        let body = g.expr(&mut cx.rng, 2);
+        let t = match cx.rng.below(7) {
+            0 => mcall(id("l"), "all", vec![id("x"), body]),
+            1 => mcall(id("l"), "exists", vec![id("x"), body]),
+            2 => mcall(id("l"), "exists_one", vec![id("x"), body]),
+            3 => mcall(id("l"), "filter", vec![id("x"), body]),
+            4 => mcall(id("l"), "map", vec![id("x"), body]),
+            5 => mcall(id("l"), "map", vec![id("x"), body, g.expr(&mut cx.rng, 1)]),
+            _ => mcall(id("l"), "reduce", vec![id("y"), id("x"), body, lit(V::Int(0))]),
+        };
+        let mut c = cx.case(t);
+        c.bind.insert("l".into(), V::List(l));
+        c.bind.insert("y".into(), V::Int(cx.rng.range(0, 3)));
+        if cx.rng.chance(1, 2) {
+            c.bind.insert("x".into(), V::Int(99));
+        }
+        c.progs.insert("p".into(), bin("+", id("y"), lit(V::Int(1))));
+        c.forms = forms(&["bound", "lit"]);
+        cx.out(c);
+    }
+}
+
+// ---------------------------------------------------------------------------------------------
+// C08: has() and coalesce()
+
+fn path_expr(root: &str, fields: &[&str], by_index: bool) -> T {
+    let mut t = id(root);
+    for f in fields {
+        t = if by_index { idx(t, lit(V::Str(f.to_string()))) } else { sel(t, f) };
+    }
+    t
+}
+
+fn nested_map(depth: usize, leaf: Option<V>) -> V {
+    // {"f1": {"f2": ... leaf}}
+    let names = ["f1", "f2", "f3", "f4"];
+    let mut v = match leaf {
+        Some(l) => Some(l),
+        None => None,
+    };
+    for d in (0..depth).rev() {
+        v = Some(V::Map(match v {
+            Some(inner) => vec![(names[d].to_string(), inner)],
+            None => vec![],
+        }));
+    }
+    v.unwrap_or(V::Map(vec![]))
+}
+
+pub fn hascoal(cx: &mut Ctx) {
+    let names = ["f1", "f2", "f3", "f4"];
+    for depth in 0..=4usize {
+        let fields: Vec<&str> = names[..depth].to_vec();
+        // binding configurations
+        let mut configs: Vec<(&str, Option<V>)> = vec![("root-unbound", None)];
+        configs.push(("present", Some(nested_map(depth, Some(V::Int(7))))));
+        configs.push(("leaf-null", Some(nested_map(depth, Some(V::Null)))));
+        configs.push(("leaf-false", Some(nested_map(depth, Some(V::Bool(false))))));
+        if depth > 0 {
+            configs.push(("leaf-missing", Some(nested_map(depth, None))));
+        }
+        for j in 1..depth {
+            // intermediate map missing at level j
+            configs.push(("mid-missing", Some(nested_map(j, None))));
+            // intermediate is not a map
+            configs.push(("mid-not-map", Some(nested_map(j, Some(V::Int(5))))));
+            configs.push(("mid-list", Some(nested_map(j, Some(V::List(vec![V::Int(1)]))))));
+            configs.push(("mid-null", Some(nested_map(j, Some(V::Null)))));
+        }
+        if depth > 0 {
+            configs.push(("root-not-map", Some(V::Str("s".into()))));
+        }
+        for (_name, root) in configs.iter() {
+            for by_index in [false, true] {
+                let p = path_expr("r", &fields, by_index);
+                let ctxs: Vec<T> = vec![
+                    call("has", vec![p.clone()]),
+                    call("coalesce", vec![p.clone(), lit(V::Int(42))]),
+                    call("coalesce", vec![lit(V::Null), p.clone()]),
+                    mcall(T::List(vec![lit(V::Int(1)), lit(V::Int(2))]), "map", vec![id("e"), call("has", vec![p.clone()])]),
+                    mcall(T::List(vec![lit(V::Int(1))]), "all", vec![id("e"), call("coalesce", vec![p.clone(), lit(V::Bool(true))])]),
+                    call("has", vec![call("coalesce", vec![p.clone()])]),
+                    call("coalesce", vec![call("has", vec![p.clone()]), lit(V::Int(1))]),
+                    call("size", vec![T::List(vec![call("has", vec![p.clone()])])]),
+                    un('!', 1, call("has", vec![p.clone()])),
+                    call("has", vec![bin("+", p.clone(), lit(V::Int(1)))]),
+                    call("has", vec![bin("/", p.clone(), lit(V::Int(0)))]),
+                    call("has", vec![idx(T::List(vec![p.clone()]), lit(V::Int(3)))]),
+                    call("has", vec![call("size", vec![p.clone()])]),
+                    call("has", vec![mcall(p.clone(), "size", vec![])]),
+                    tern(call("has", vec![p.clone()]), p.clone(), lit(V::Str("dflt".into()))),
+                ];
+                for (ci, t) in ctxs.into_iter().enumerate() {
+                    if !cx.thorough && ci >= 9 && depth >= 3 {
+                        continue;
+                    }
+                    let mut c = cx.case(t);
+                    if let Some(v) = root {
+                        c.bind.insert("r".into(), v.clone());
+                    }
+                    c.forms = forms(&["bound", "lit", "json"]);
+                    cx.out(c);
+                }
+            }
+        }
+    }
+    // coalesce: all argument lists of length 0..5 over {present, null, absent, failing-other}, as recording calls
+    for len in 0..=5usize {
+        let total = 4usize.pow(len as u32);
+        for code in 0..total {
+            if !cx.thorough && len == 5 && cx.rng.below(4) != 0 {
+                continue;
+            }
+            let mut args = Vec::new();
+            let mut c0 = code;
+            let mut funcs = Vec::new();
+            for i in 0..len {
+                let kind = c0 % 4;
+                c0 /= 4;
+                let name = format!("c{}", i + 1);
+                args.push(call(&name, vec![]));
+                funcs.push((
+                    name,
+                    match kind {
+                        0 => serde_json::json!({"o":"ok","v":V::Int(i as i64 + 1).to_json()}),
+                        1 => serde_json::json!({"o":"ok","v":V::Null.to_json()}),
+                        2 => serde_json::json!({"o":"err","c":"absent"}),
+                        _ => serde_json::json!({"o":"err","c":"other"}),
+                    },
+                ));
+            }
+            let placements: Vec<T> = vec![
+                call("coalesce", args.clone()),
+                mcall(T::List(vec![lit(V::Int(1))]), "map", vec![id("e"), call("coalesce", args.clone())]),
+                call("has", vec![call("coalesce", args.clone())]),
+            ];
+            for (pi, t) in placements.into_iter().enumerate() {
+                if pi > 0 && len > 3 && !cx.thorough {
+                    continue;
+                }
+                let mut c = cx.case(t);
+                for (n, s) in funcs.iter() {
+                    c.funcs.insert(n.clone(), s.clone());
+                }
+                c.forms = forms(&["bound"]);
+                cx.out(c);
+            }
+        }
+    }
+    // has on every kind of failure
+    for t in [
+        call("has", vec![bin("/", lit(V::Int(1)), id("zero"))]),
+        call("has", vec![idx(id("l"), lit(V::Int(9)))]),
+        call("has", vec![bin("+", lit(V::Int(1)), lit(V::Str("a".into())))]),
+        call("has", vec![un('-', 1, lit(V::Str("a".into())))]),
+        call("has", vec![idx(id("m"), lit(V::Int(1)))]),
+        call("has", vec![idx(id("m"), lit(V::Str("zz".into())))]),
+        call("has", vec![sel(id("m"), "zz")]),
+        call("has", vec![sel(id("m"), "a")]),
+        call("has", vec![id("nope")]),
+        call("has", vec![id("p_ok")]),
+        call("has", vec![id("p_absent")]),
+        call("has", vec![id("p_fail")]),
+        call("has", vec![]),
+        call("has", vec![id("m"), id("m")]),
+        call("has", vec![call("int", vec![lit(V::Str("x".into()))])]),
+        call("has", vec![sel(bin("/", lit(V::Int(1)), id("zero")), "foo")]),
+        call("coalesce", vec![sel(bin("/", id("l"), id("zero")), "foo"), lit(V::Int(7))]),
+        call("coalesce", vec![]),
+        call("coalesce", vec![id("nope"), sel(id("m"), "zz"), idx(id("m"), lit(V::Str("q".into()))), lit(V::Null)]),
+        call("coalesce", vec![id("nope"), bin("/", lit(V::Int(1)), id("zero")), lit(V::Int(3))]),
+        call("coalesce", vec![id("p_absent"), id("p_ok")]),
+        call("coalesce", vec![id("p_fail"), id("p_ok")]),
+    ] {
+        let mut c = cx.case(t);
+        c.bind.insert("zero".into(), V::Int(0));
+        c.bind.insert("l".into(), V::List(vec![V::Int(1)]));
+        c.bind.insert("m".into(), V::Map(vec![("a".into(), V::Null)]));
+        c.progs.insert("p_ok".into(), lit(V::Int(5)));
+        c.progs.insert("p_absent".into(), sel(id("m"), "nokey"));
+        c.progs.insert("p_fail".into(), bin("%", lit(V::Int(5)), id("zero")));
+        c.forms = forms(&["bound", "lit", "json"]);
+        cx.out(c);
+    }
+    // random bound maps
+    for _ in 0..cx.n {
+        let depth = cx.rng.below(4) as usize;
+        let root = rand_value(&mut cx.rng, 3);
+        let fields: Vec<&str> = (0..depth).map(|_| cx.rng.pick_str(&["a", "b", "k", "zz"])).collect();
+        let p = path_expr("r", &fields, cx.rng.chance(1, 3));
+        let t = if cx.rng.chance(1, 2) { call("has", vec![p]) } else { call("coalesce", vec![p, lit(V::Int(-1))]) };
+        let mut c = cx.case(t);
+        c.bind.insert("r".into(), root);
+        c.forms = forms(&["bound", "lit", "json"]);
+        cx.out(c);
+    }
+}
+
+// ---------------------------------------------------------------------------------------------
+// C09: constant folding is invisible
+
+pub fn fold(cx: &mut Ctx) {
+    let g = ExprGen { vars: vec!["a".into(), "b".into(), "c".into(), "d".into()], progs: vec![], funcs: vec![], macros: true, fstrings: true, matches: true };
+    let total = cx.n;
+    for i in 0..total {
+        let depth = 2 + (i % 3) as u32;
+        let t = g.expr(&mut cx.rng, depth);
+        let mut c = cx.case(t);
+        bind_random(&mut c, &["a", "b", "c", "d"], &mut cx.rng, 2);
+        let k = c.bind.len();
+        let mut fs: Vec<String> = Vec::new();
+        for mask in 0..(1u32 << k) {
+            fs.push(format!("sub:{}", (0..k).map(|j| if mask >> j & 1 == 1 { '1' } else { '0' }).collect::<String>()));
+        }
+        c.forms = fs;
+        cx.out(c);
+    }
+    // targeted: the constructs the compiler folds or evaluates at compile time
+    let targeted: Vec<T> = vec![
+        tern(id("a"), lit(V::Int(2)), lit(V::Int(3))),
+        tern(bin(">", bin("/", id("a"), id("b")), lit(V::Int(0))), lit(V::Str("t".into())), lit(V::Str("f".into()))),
+        sel(T::Map(vec![(lit(V::Str("k".into())), id("a")), (lit(V::Str("k".into())), id("b"))]), "k"),
+        idx(T::Map(vec![(id("c"), id("a")), (id("c"), id("b"))]), id("c")),
+        mcall(T::List(vec![id("a")]), "filter", vec![id("v"), lit(V::Bool(true))]),
+        mcall(T::List(vec![id("a"), id("b")]), "map", vec![id("v"), bin("+", id("v"), id("a"))]),
+        call("size", vec![mcall(T::List(vec![T::List(vec![id("a")])]), "filter", vec![id("v"), bin("in", id("v"), T::List(vec![T::List(vec![lit(V::Int(1))])]))])]),
+        mcall(T::List(vec![lit(V::Int(1))]), "map", vec![id("v"), T::Map(vec![(lit(V::Str("k".into())), call("has", vec![id("a")]))])]),
+        mcall(T::List(vec![lit(V::Int(1)), lit(V::Int(2))]), "reduce", vec![id("acc"), id("v"), bin("+", id("acc"), call("coalesce", vec![id("a"), id("v")])), lit(V::Int(0))]),
+        call("size", vec![T::List(vec![id("a"), id("b")])]),
+        call("int", vec![id("c")]),
+        call("string", vec![bin("+", id("a"), id("b"))]),
+        bin("||", bin("/", id("a"), id("b")), id("d")),
+        bin("&&", id("d"), bin("/", id("a"), id("b"))),
+        bin("==", T::List(vec![bin("/", id("a"), id("b"))]), T::List(vec![lit(V::Int(1))])),
+        bin("!=", T::List(vec![id("a")]), T::List(vec![lit(V::Int(1))])),
+        T::FStr(vec![Seg::Lit("x=".into()), Seg::Expr(id("a")), Seg::Lit("{y}".into()), Seg::Expr(bin("+", id("a"), id("b")))]),
+        T::Match { e: Box::new(id("a")), cases: vec![(Pat::Type("int".into()), id("b")), (Pat::Cmp(">".into(), id("b")), lit(V::Int(1))), (Pat::Any, id("c"))] },
+        un('-', 1, id("a")),
+        un('!', 2, id("a")),
+        bin("+", id("a"), un('-', 1, id("b"))),
+        call("max", vec![id("a"), id("b"), lit(V::Int(3))]),
+        mcall(T::List(vec![id("b"), id("a"), lit(V::Int(2))]), "sort", vec![]),
+        idx(T::List(vec![id("a"), id("b")]), un('-', 1, lit(V::Int(1)))),
+    ];
+    let pool: Vec<Option<V>> = vec![None, Some(V::Int(0)), Some(V::Int(1)), Some(V::Int(i64::MIN)), Some(V::Int(i64::MAX)), Some(V::Str("k".into())), Some(V::Bool(true)), Some(V::Null), Some(V::Dbl(0.5)), Some(V::Uint(u64::MAX)), Some(V::List(vec![V::Int(1)]))];
+    for t in targeted.iter() {
+        let reps = if cx.thorough { 120 } else { 25 };
+        for _ in 0..reps {
+            let mut c = cx.case(t.clone());
+            for n in ["a", "b", "c", "d"] {
+                if let Some(v) = cx.rng.pick(&pool) {
+                    c.bind.insert(n.to_string(), v.clone());
+                }
+            }
+            let k = c.bind.len();
+            c.forms = (0..(1u32 << k)).map(|mask| format!("sub:{}", (0..k).map(|j| if mask >> j & 1 == 1 { '1' } else { '0' }).collect::<String>())).collect();
+            cx.out(c);
+        }
     }
 }
